@@ -42,7 +42,7 @@ def discharge(db, mono, fn, s, stream):
     if s.kind == "partial" and s.detail == "Index::index":
         return guards.discharge_index(db, fn, s) or guards.discharge_indexed_by_position(db, fn, s)
     if s.kind == "partial" and s.detail == "Result::unwrap/expect":
-        return guards.discharge_unwrap_const_utf8(db, mono, fn, s) or guards.discharge_unwrap_always_some(db, fn, s)
+        return guards.discharge_unwrap_const_utf8(db, mono, fn, s) or guards.discharge_unwrap_always_some(db, fn, s) or guards.discharge_constant_initializer(db, fn, s)
     if s.kind == "partial" and s.detail == "Option::unwrap/expect":
         return guards.discharge_unwrap_always_some(db, fn, s)
     if s.kind == "partial" and "byte-offset slice" in s.detail:
